@@ -7,7 +7,9 @@ import "net/http"
 
 // VerifScriptedLB builds a balancer over n scripted backends (see verifFullLB).
 func VerifScriptedLB(strategy, n, features int) *LoadBalancer {
+	keep := verifNoInterim
 	lb, _ := verifFullLB(strategy, n, features)
+	verifNoInterim = keep
 	return lb
 }
 
@@ -26,3 +28,6 @@ func VerifLastBackend() (int, int) {
 	defer verifMu.Unlock()
 	return verifLastKind, verifLastStatus
 }
+
+// VerifAllowInterim: whether scripted backends may send an interim 103 before the final status.
+func VerifAllowInterim(on bool) { verifNoInterim = !on }
